@@ -13,17 +13,54 @@ variable {α : Type}
 
 /-! ### sorting -/
 
-theorem sortNat_perm (l : List Nat) : (sortNat l).Perm l := mergeSort_perm l _
+theorem insertNat_perm (a : Nat) (l : List Nat) : (insertNat a l).Perm (a :: l) := by
+  induction l with
+  | nil => exact Perm.refl _
+  | cons b l ih =>
+    unfold insertNat
+    by_cases h : a ≤ b
+    · rw [if_pos h]
+    · rw [if_neg h]; exact (ih.cons b).trans (Perm.swap _ _ _)
+
+theorem sortNat_perm (l : List Nat) : (sortNat l).Perm l := by
+  induction l with
+  | nil => exact Perm.refl _
+  | cons a l ih =>
+    show (insertNat a (sortNat l)).Perm (a :: l)
+    exact (insertNat_perm a _).trans (ih.cons a)
+
+theorem pairwise_insertNat (a : Nat) (l : List Nat) (h : l.Pairwise (· ≤ ·)) :
+    (insertNat a l).Pairwise (· ≤ ·) := by
+  induction l with
+  | nil => simp [insertNat]
+  | cons b l ih =>
+    rw [pairwise_cons] at h
+    unfold insertNat
+    by_cases hab : a ≤ b
+    · rw [if_pos hab, pairwise_cons]
+      refine ⟨?_, pairwise_cons.2 h⟩
+      intro x hx
+      rcases mem_cons.1 hx with rfl | hx
+      · exact hab
+      · exact Nat.le_trans hab (h.1 x hx)
+    · rw [if_neg hab, pairwise_cons]
+      refine ⟨?_, ih h.2⟩
+      intro x hx
+      have hx' := (insertNat_perm a l).subset hx
+      rcases mem_cons.1 hx' with rfl | hx'
+      · omega
+      · exact h.1 x hx'
+
+theorem pairwise_sortNat (l : List Nat) : (sortNat l).Pairwise (· ≤ ·) := by
+  induction l with
+  | nil => simp [sortNat]
+  | cons a l ih => exact pairwise_insertNat a _ ih
 
 theorem sortNat_eq_of_perm {l₁ l₂ : List Nat} (h : l₁.Perm l₂) : sortNat l₁ = sortNat l₂ := by
-  have tr : ∀ (a b c : Nat), decide (a ≤ b) = true → decide (b ≤ c) = true → decide (a ≤ c) = true := by
-    intro a b c h1 h2; simp at *; omega
-  have tot : ∀ (a b : Nat), (decide (a ≤ b) || decide (b ≤ a)) = true := by
-    intro a b; simp; omega
-  apply Perm.eq_of_pairwise (le := fun a b => decide (a ≤ b) = true)
-  · intro a b _ _ h1 h2; simp at h1 h2; omega
-  · exact pairwise_mergeSort tr tot l₁
-  · exact pairwise_mergeSort tr tot l₂
+  apply Perm.eq_of_pairwise (le := fun a b => a ≤ b)
+  · intro a b _ _ h1 h2; omega
+  · exact pairwise_sortNat l₁
+  · exact pairwise_sortNat l₂
   · exact ((sortNat_perm l₁).trans h).trans (sortNat_perm l₂).symm
 
 /-- a rearrangement of `g.map f` is `c.map f` for a rearrangement `c` of `g`. -/
